@@ -8,17 +8,23 @@ package nebula
 // that authenticated it and against the simulator's ground truth.
 
 import (
+	"errors"
 	"fmt"
 	"net/netip"
 	"slices"
 	"time"
 
 	"github.com/slackhq/nebula/cert"
+	"github.com/slackhq/nebula/handshake"
+	"github.com/slackhq/nebula/header"
 	sk "github.com/slackhq/nebula/internal/verifsimkit"
 )
 
 func init() {
-	sk.Register("C09.mesh", sk.Scenario{Run: runC09})
+	sk.Register("C09.mesh", sk.Scenario{Run: func(rc *sk.RunCtx) { runC09(rc, false) }})
+	// C05 on the whole node (HandshakeManager's certificate verifier, not only handshake.Machine): the same world
+	// with the certificate thief always present
+	sk.Register("C05.mesh", sk.Scenario{Run: func(rc *sk.RunCtx) { runC09(rc, true) }})
 }
 
 type bindingOracle struct {
@@ -149,8 +155,9 @@ func sessionsMatch(a, b *HostInfo) bool {
 	return err == nil && string(pt) == "probe"
 }
 
-func runC09(rc *sk.RunCtx) {
+func runC09(rc *sk.RunCtx, forceThief bool) {
 	tp := rc.Tape
+	thief := tp.Chance(1, 2) || forceThief
 	horizon := time.Duration(15+tp.Choose(30)) * time.Second
 	if rc.Thorough() {
 		horizon = time.Duration(30+tp.Choose(120)) * time.Second
@@ -228,6 +235,141 @@ func runC09(rc *sk.RunCtx) {
 	}
 	mw.scheduleWorkload(nw, 0, horizon)
 	mw.scheduleOperator(nops, time.Second, horizon, []string{"rehandshake", "close", "close-local", "restart", "stall", "partition", "burst"})
+	// certificate thief: an uncertified party that saw a node's certificate on the wire (first handshake messages
+	// carry it) starts handshakes presenting that certificate with a static key of its own, also towards nodes
+	// that already hold a tunnel with the certificate's owner. It must never get a tunnel.
+	if thief {
+		suite, err := newCipherSuite(mw.ca.crt.Curve(), false, "aes", false)
+		if err != nil {
+			rc.HarnessError("cipher suite: %v", err)
+			return
+		}
+		for k, m := 0, 3+tp.Choose(10); k < m; k++ {
+			at := time.Second + time.Duration(tp.Choose(int(horizon/time.Millisecond)))*time.Millisecond
+			vi, ti := tp.Choose(len(mw.specs)), tp.Choose(len(mw.specs))
+			idx := uint32(1 + tp.Choose(1<<30))
+			mw.at(at, "thief-handshake", func() {
+				if vi == ti || vi >= len(mw.nodes) || ti >= len(mw.nodes) || !mw.nodes[ti].alive {
+					return
+				}
+				T := mw.nodes[ti]
+				stolen := mw.nodes[vi].spec.id.certs[len(mw.nodes[vi].spec.id.certs)-1]
+				hb, err := stolen.MarshalForHandshakes()
+				if err != nil {
+					return
+				}
+				// The thief's Noise static keypair is its own (a Credential takes the public half from its certificate
+				// object, so the local object is a throw-away certificate over the thief's key); what goes on the wire
+				// is the stolen certificate's handshake encoding, which carries no public key: the responder rebuilds
+				// the certificate around the static key it was shown, and the CA signature cannot match.
+				tca := newSimCA(stolen.Version(), stolen.Curve(), "thief-ca", mw.notBefore, mw.notAfter, nil, nil, nil)
+				tid := newSimIdentity(tca, []cert.Version{stolen.Version()}, "thief", mw.notBefore, mw.notAfter, stolen.Networks(), nil, nil)
+				cred := handshake.NewCredential(tid.cert(stolen.Version()), hb, tid.priv, suite)
+				m, err := handshake.NewMachine(stolen.Version(), func(v cert.Version) *handshake.Credential {
+					if v == stolen.Version() {
+						return cred
+					}
+					return nil
+				}, func(c cert.Certificate) (*cert.CachedCertificate, error) { return nil, errors.New("unused") },
+					func() (uint32, error) { return idx, nil }, true, header.HandshakeIXPSK0)
+				if err != nil {
+					rc.HarnessError("thief machine: %v", err)
+					return
+				}
+				msg1, err := m.Initiate(nil)
+				if err != nil {
+					rc.HarnessError("thief initiate: %v", err)
+					return
+				}
+				from := netip.AddrPortFrom(netip.AddrFrom4([4]byte{198, 51, 100, byte(1 + k)}), 4242)
+				mw.pump()
+				T.recvBatch([]*simDatagram{{from: from, to: T.conn.addr, data: msg1, src: -1}})
+				rc.Count("probe.thief_handshakes", 1)
+				for _, h := range sortedHostInfos(T.f.hostMap) {
+					if h.remoteIndexId == idx {
+						rc.Fail("stolen-certificate-accepted", "node %d installed tunnel %d for %v from a handshake that presented node %d's certificate with a different static key", T.idx, h.localIndexId, h.vpnAddrs, vi)
+						return
+					}
+				}
+			})
+		}
+	}
+	// trust changes while a handshake is in flight: node i dials j and, before the reply is back, a reload
+	// blocklists j's certificate on i. A tunnel to j that appears on i after that reload was authenticated
+	// against trust that no longer holds.
+	if forceThief {
+		type blk struct {
+			fps   []string
+			known map[*HostInfo]bool
+		}
+		blocked := map[int]map[int]*blk{}
+		for k, m := 0, tp.Choose(4); k < m; k++ {
+			at := 2*time.Second + time.Duration(tp.Choose(int(horizon/time.Millisecond)))*time.Millisecond
+			i, j := tp.Choose(len(mw.specs)), tp.Choose(len(mw.specs))
+			mw.at(at, "blocklist-during-handshake", func() {
+				if i == j || i >= len(mw.nodes) || j >= len(mw.nodes) || !mw.nodes[i].alive || !mw.nodes[j].alive || (mw.useLH && (i == 0 || j == 0)) {
+					return
+				}
+				ni := mw.nodes[i]
+				mw.opCloseTunnel(i, j, true)
+				mw.appSend(i, j, 0) // first handshake message leaves now, the reply needs a network round trip
+				spec := *ni.spec
+				spec.extra = map[string]any{}
+				deepMerge(spec.extra, ni.spec.extra)
+				var fps []any
+				for _, f := range mw.nodes[j].spec.id.fingerprints() {
+					fps = append(fps, f)
+				}
+				// keep what earlier events of this kind blocklisted on this node
+				for _, jj := range []int{0, 1, 2, 3, 4, 5, 6} {
+					if b := blocked[i][jj]; b != nil && jj != j {
+						for _, f := range b.fps {
+							fps = append(fps, f)
+						}
+					}
+				}
+				deepMerge(spec.extra, map[string]any{"pki": map[string]any{"blocklist": fps}})
+				if err := ni.reload(spec.configYAML()); err != nil {
+					rc.HarnessError("reload: %v", err)
+					return
+				}
+				ni.spec = &spec
+				mw.specs[i] = &spec // a later restart keeps the blocklist
+				b := &blk{fps: mw.nodes[j].spec.id.fingerprints(), known: map[*HostInfo]bool{}}
+				for _, h := range sortedHostInfos(ni.f.hostMap) {
+					b.known[h] = true
+				}
+				if blocked[i] == nil {
+					blocked[i] = map[int]*blk{}
+				}
+				blocked[i][j] = b
+				rc.Count("probe.blocklist_during_handshake", 1)
+			})
+		}
+		prev := mw.afterEvent
+		mw.afterEvent = func(name string) {
+			if prev != nil {
+				prev(name)
+			}
+			for i, m := range blocked {
+				if i >= len(mw.nodes) || !mw.nodes[i].alive {
+					continue
+				}
+				for _, h := range sortedHostInfos(mw.nodes[i].f.hostMap) {
+					if h.ConnectionState == nil || h.ConnectionState.peerCert == nil {
+						continue
+					}
+					for j, b := range m {
+						if !b.known[h] && slices.Contains(b.fps, h.ConnectionState.peerCert.Fingerprint) {
+							rc.Fail("blocklisted-peer-accepted", "node %d after %s: tunnel %d to node %d (%v) was installed after a reload had blocklisted that node's certificate (pool says blocklisted=%v, configured list %v, initiator=%v)", i, name, h.localIndexId, j, h.vpnAddrs,
+								mw.nodes[i].f.pki.GetCAPool().IsBlocklisted(h.ConnectionState.peerCert.Fingerprint), mw.nodes[i].c.GetStringSlice("pki.blocklist", nil), h.ConnectionState.initiator)
+							return
+						}
+					}
+				}
+			}
+		}
+	}
 	mw.runUntil(horizon)
 	rc.Count("probe.session_ground_truth_checks", int64(or.crossOK))
 	if wrongResponder {
